@@ -373,6 +373,16 @@ namespace c04
                 { xsimd::store_as((C*)c.p, CGET, xsimd::aligned_mode {}); });
             add("xsimd::store_as<complex>(unaligned_mode)", K_CPLX_STORE, EL, [](Ctx& c)
                 { xsimd::store_as((C*)c.p, CGET, xsimd::unaligned_mode {}); });
+            // split (two-pointer) forms: separate real and imaginary arrays
+            const int RL = (int)alignof(T);
+            add("batch<complex>::load_aligned(re*,im*)", K_CPLX2_LOAD, AL, [](Ctx& c)
+                { CB z = CB::load_aligned((const T*)c.p, (const T*)c.p2); CPUT(z) });
+            add("batch<complex>::load_unaligned(re*,im*)", K_CPLX2_LOAD, RL, [](Ctx& c)
+                { CB z = CB::load_unaligned((const T*)c.p, (const T*)c.p2); CPUT(z) });
+            add("batch<complex>::store_aligned(re*,im*)", K_CPLX2_STORE, AL, [](Ctx& c)
+                { CGET.store_aligned((T*)c.p, (T*)c.p2); });
+            add("batch<complex>::store_unaligned(re*,im*)", K_CPLX2_STORE, RL, [](Ctx& c)
+                { CGET.store_unaligned((T*)c.p, (T*)c.p2); });
 #undef CPUT
 #undef CGET
         }
